@@ -14,6 +14,11 @@
 //	          IPv4:443, [IPv6]:443, [IPv6]:8443} x client SNI {host of the authority, a different name} x client TLS
 //	          profile {default, ALPN h2+http/1.1 offered, TLS 1.2 only, TLS 1.3 only} x early data {no, first bytes of
 //	          the tunnel (ClientHello resp. first request) in the same segment as the CONNECT head}.
+//	nested    (both tiers) the client speaks TLS to the proxy itself (outer SNI c05-outer-proxy.test) on a listener
+//	          {tls.NewListener(l), tls.NewListener(trafficshape.NewListener(l)), trafficshape.NewListener(tls.NewListener(l))},
+//	          sends CONNECT over that OUTER TLS connection and performs a SECOND handshake inside the tunnel, which the
+//	          proxy MITMs: outer client profile {default, TLS 1.2 only} x N = 1..2 / 1..3 requests, all form sequences
+//	          x hijack variants. Every inner request must carry the state of the INNER connection.
 //	pair      (thorough) two connections with two tunnels (different authorities, every combination of TLS/plaintext),
 //	          1..2 requests each, all form sequences, interleaved request by request.
 //	reconnect (thorough) plaintext inside CONNECT (1..2 requests) followed by a second CONNECT (other authority) on the
@@ -64,6 +69,7 @@ import (
 const (
 	hostName = "c05-origin.test"
 	otherSNI = "c05-other-sni.test"
+	outerSNI = "c05-outer-proxy.test"
 	marker   = "C05-HIJACKED-MARKER\n"
 	ack      = "C05-ACK\n"
 	ekmLabel = "EXPORTER-verif-c05"
@@ -126,7 +132,8 @@ type Script struct {
 // History is one enumerated scenario.
 type History struct {
 	ID       int      `json:"id"`
-	Space    string   `json:"space"` // core | config | pair | reconnect
+	Space    string   `json:"space"`           // core | config | nested | pair | reconnect
+	Outer    string   `json:"outer,omitempty"` // nested: TLS profile of the outer client<->proxy connection
 	Listener string   `json:"listener"`
 	Conns    []Script `json:"conns"`
 	Hijack   string   `json:"hijack"` // none | req | res  (modifier of the LAST request of connection 0)
@@ -143,6 +150,9 @@ func (h History) String() string {
 		s := strings.Join(ps, " then ")
 		if h.Space == "config" {
 			s += fmt.Sprintf(" tls=%s sni=%s early=%v", sc.TLS, sc.SNI, sc.Early)
+		}
+		if h.Space == "nested" {
+			s = fmt.Sprintf("outerTLS(%s,sni=%s){CONNECT %s}", h.Outer, outerSNI, s)
 		}
 		cs = append(cs, s)
 	}
@@ -162,10 +172,16 @@ type item struct {
 	seq     int // index of the message on the connection (header X-C05-Seq)
 }
 
+// hasConnect: the client opens tunnels with CONNECT (otherwise it talks TLS to a transparent listener directly).
+func (h History) hasConnect() bool { return h.Space == "nested" || h.Listener != "transparent" }
+
+// outerTLS: the client speaks TLS to the proxy itself before anything else.
+func (h History) outerTLS() bool { return h.Listener != "plain" && h.Listener != "shaped" }
+
 func (h History) items(ci int) []item {
 	var out []item
 	for pi, p := range h.Conns[ci].Phases {
-		if h.Listener != "transparent" {
+		if h.hasConnect() {
 			out = append(out, item{phase: pi, connect: true, seq: len(out)})
 		}
 		for k, f := range p.Forms {
@@ -177,6 +193,8 @@ func (h History) items(ci int) []item {
 
 func (h History) entry(ci, phase int) string {
 	switch {
+	case h.Space == "nested":
+		return "nested_tls"
 	case h.Listener == "transparent":
 		return "transparent_tls"
 	case phase > 0:
@@ -206,6 +224,8 @@ func (h History) attrs(ci int, it item) map[string]string {
 			a["sni"] = sc.SNI
 			a["tls"] = sc.TLS
 		}
+	case "nested":
+		a["outer"] = h.Outer
 	case "pair":
 		a["peer"] = h.Conns[1-ci].Phases[0].Inner
 	}
@@ -250,6 +270,23 @@ func enumerate(tier string) []History {
 								Conns: []Script{{Phases: []Phase{{au.Authority, in, fs}}, TLS: "default", SNI: "same", Auth: au.Label}}})
 						})
 					}
+				}
+			}
+		}
+	}
+	// nested space
+	nestedN := 2
+	if thorough {
+		nestedN = 3
+	}
+	for n := 1; n <= nestedN; n++ {
+		for _, hk := range hjs {
+			for _, l := range []string{"transparent", "tls_over_shaped", "shaped_over_tls"} {
+				for _, outer := range []string{"default", "tls12"} {
+					formSeqs(n, func(fs []string) {
+						add(History{Space: "nested", Listener: l, Outer: outer, Hijack: hk.pos, Via: hk.via,
+							Conns: []Script{{Phases: []Phase{{hostName + ":443", "tls", fs}}, TLS: "default", SNI: "same", Auth: "443"}}})
+					})
 				}
 			}
 		}
@@ -345,6 +382,8 @@ type ReqObs struct {
 	TLSEKM     string `json:"tls_ekm,omitempty"` // exported keying material: equal on both ends of ONE TLS connection
 	TLSDone    bool   `json:"tls_handshake_complete,omitempty"`
 	TLSVersion uint16 `json:"tls_version,omitempty"`
+	TLSName    string `json:"tls_server_name,omitempty"`
+	TLSCipher  uint16 `json:"tls_cipher,omitempty"`
 	Session    int    `json:"session"` // index of the distinct *martian.Session objects seen in this history
 	SessionID  string `json:"session_id"`
 	ResSeen    bool   `json:"res_seen"`
@@ -388,12 +427,15 @@ type PhaseOut struct {
 	HandshakeErr  string `json:"handshake_err,omitempty"`
 	ClientEKM     string `json:"client_ekm,omitempty"`
 	TLSVersion    uint16 `json:"tls_version,omitempty"`
+	TLSName       string `json:"tls_server_name,omitempty"` // SNI the client sent on this connection
+	TLSCipher     uint16 `json:"tls_cipher,omitempty"`
 	ALPN          string `json:"alpn,omitempty"`
 }
 
 // ConnOut is what one client connection experienced.
 type ConnOut struct {
 	DialErr     string      `json:"dial_err,omitempty"`
+	Outer       *PhaseOut   `json:"outer,omitempty"` // the client's TLS connection to the proxy itself (nested space)
 	Phases      []PhaseOut  `json:"phases"`
 	Client      []ClientRes `json:"client"`
 	AckWriteErr string      `json:"ack_write_err,omitempty"`
@@ -798,6 +840,8 @@ func (m *recorder) ModifyRequest(req *http.Request) error {
 		ob.TLS = true
 		ob.TLSDone = req.TLS.HandshakeComplete
 		ob.TLSVersion = req.TLS.Version
+		ob.TLSName = req.TLS.ServerName
+		ob.TLSCipher = req.TLS.CipherSuite
 		ob.TLSEKM = ekmOf(req.TLS)
 	}
 	m.reqs = append(m.reqs, ob)
@@ -940,9 +984,18 @@ func (c *client) open(addr string) {
 	}
 	c.raw, c.stream, c.sbr = raw, raw, bufio.NewReader(raw)
 	raw.SetDeadline(time.Now().Add(ioDeadline))
-	if c.h.Listener == "transparent" {
+	switch {
+	case c.h.Space == "nested":
+		po := &PhaseOut{Attempted: true}
+		c.set(func() { c.out.Outer = po })
+		cfg := &tls.Config{ServerName: outerSNI, RootCAs: c.e.mitmRoots}
+		if c.h.Outer == "tls12" {
+			cfg.MinVersion, cfg.MaxVersion = tls.VersionTLS12, tls.VersionTLS12
+		}
+		c.handshake(po, cfg, raw)
+	case !c.h.hasConnect():
 		c.set(func() { c.out.Phases[0].Attempted = true })
-		c.handshake(0, raw)
+		c.handshake(&c.out.Phases[0], c.tlsConfig(0), raw)
 	}
 }
 
@@ -963,18 +1016,19 @@ func (c *client) tlsConfig(phase int) *tls.Config {
 	return cfg
 }
 
-func (c *client) handshake(phase int, under net.Conn) bool {
-	tc := tls.Client(under, c.tlsConfig(phase))
+func (c *client) handshake(po *PhaseOut, cfg *tls.Config, under net.Conn) bool {
+	tc := tls.Client(under, cfg)
 	if err := tc.Handshake(); err != nil {
-		c.set(func() { c.out.Phases[phase].HandshakeErr = err.Error() })
+		c.set(func() { po.HandshakeErr = err.Error() })
 		c.dead = true
 		return false
 	}
 	cs := tc.ConnectionState()
 	c.set(func() {
-		po := &c.out.Phases[phase]
 		po.ClientEKM = ekmOf(&cs)
 		po.TLSVersion = cs.Version
+		po.TLSName = cs.ServerName
+		po.TLSCipher = cs.CipherSuite
 		po.ALPN = cs.NegotiatedProtocol
 	})
 	c.stream, c.sbr = tc, bufio.NewReader(tc)
@@ -995,7 +1049,7 @@ func (c *client) step() {
 		early := c.sc.Early && it.phase == 0
 		if early && ph.Inner == "tls" {
 			ec := &earlyConn{Conn: c.stream, br: c.sbr, head: []byte(head)}
-			c.handshake(it.phase, ec)
+			c.handshake(&c.out.Phases[it.phase], c.tlsConfig(it.phase), ec)
 			c.set(func() {
 				c.out.Phases[it.phase].ConnectStatus = ec.status
 				c.out.Phases[it.phase].ConnectErr = ec.err
@@ -1025,7 +1079,7 @@ func (c *client) step() {
 			return
 		}
 		if ph.Inner == "tls" {
-			c.handshake(it.phase, &bufConn{c.stream, c.sbr})
+			c.handshake(&c.out.Phases[it.phase], c.tlsConfig(it.phase), &bufConn{c.stream, c.sbr})
 		}
 		return
 	}
@@ -1125,6 +1179,10 @@ func runHistory(e *env, h History) *Outcome {
 		l = trafficshape.NewListener(base)
 	case "transparent":
 		l = tls.NewListener(base, e.mc.TLS())
+	case "tls_over_shaped":
+		l = tls.NewListener(trafficshape.NewListener(base), e.mc.TLS())
+	case "shaped_over_tls":
+		l = trafficshape.NewListener(tls.NewListener(base, e.mc.TLS()))
 	}
 	go p.Serve(l)
 
@@ -1258,6 +1316,17 @@ func judge(o *Outcome, st *judgeStats) []V {
 			addV(E0, "harness_setup_error", hist, "%s", co.DialErr)
 			continue
 		}
+		if h.Space == "nested" {
+			check()
+			if co.Outer == nil || co.Outer.HandshakeErr != "" {
+				msg := "not attempted"
+				if co.Outer != nil {
+					msg = co.Outer.HandshakeErr
+				}
+				addV(E0, "client_tls_handshake_fails", hist, "outer TLS handshake with the proxy itself (SNI %s) failed: %s", outerSNI, msg)
+				continue
+			}
+		}
 		items := h.items(ci)
 		connSession := -2 // session of the first message seen on this connection
 		var connectObs *ReqObs
@@ -1270,7 +1339,7 @@ func judge(o *Outcome, st *judgeStats) []V {
 			tlsIn := ph.Inner == "tls"
 			pat := h.attrs(ci, item{})
 
-			if it.connect || (h.Listener == "transparent" && k == 0) {
+			if it.connect || (!h.hasConnect() && k == 0) {
 				// opening of a tunnel
 				if !po.Attempted {
 					stop = true // an earlier message already failed (reported there)
@@ -1363,15 +1432,22 @@ func judge(o *Outcome, st *judgeStats) []V {
 				check()
 				if !ob.TLS {
 					addV(E, "tls_state_missing", at, "request %d (%s): req.TLS == nil in the request modifier (scheme=%s secure=%v)", it.idx, it.form, ob.Scheme, ob.Secure)
-				} else if ob.TLSEKM != po.ClientEKM || !ob.TLSDone || ob.TLSVersion != po.TLSVersion {
-					addV(E, "tls_state_not_of_this_connection", at, "request %d (%s): req.TLS is not the state of the client's TLS connection (keying material %s vs client %s, version %x vs %x, handshake complete=%v)", it.idx, it.form, ob.TLSEKM, po.ClientEKM, ob.TLSVersion, po.TLSVersion, ob.TLSDone)
+				} else if ob.TLSEKM != po.ClientEKM || !ob.TLSDone || ob.TLSVersion != po.TLSVersion || ob.TLSCipher != po.TLSCipher || !strings.EqualFold(ob.TLSName, po.TLSName) {
+					what := "the client's TLS connection"
+					if h.Space == "nested" {
+						what = "the INNER TLS connection the request was read from"
+						if co.Outer != nil && ob.TLSEKM == co.Outer.ClientEKM {
+							what += " (it is the state of the OUTER client<->proxy connection)"
+						}
+					}
+					addV(E, "tls_state_not_of_this_connection", at, "request %d (%s): req.TLS is not the state of %s: ServerName %q vs client %q, keying material %s vs %s, version %x vs %x, cipher %x vs %x, handshake complete=%v", it.idx, it.form, what, ob.TLSName, po.TLSName, ob.TLSEKM, po.ClientEKM, ob.TLSVersion, po.TLSVersion, ob.TLSCipher, po.TLSCipher, ob.TLSDone)
 				} else if ob.ResSeen && !ob.ResTLS {
 					addV(E, "tls_state_missing_at_response_modifier", at, "request %d (%s): req.TLS == nil when the response modifier runs", it.idx, it.form)
 				}
 				// "the tunnel's authority as host when none is given"
 				check()
 				if it.form == "nohost" {
-					if h.Listener != "transparent" && !hostOK(ph.Authority, ob.URLHost) {
+					if h.hasConnect() && !hostOK(ph.Authority, ob.URLHost) {
 						hostBad = true
 						addV(E, "url_host_not_tunnel_authority", at, "request %d has no Host header and an origin-form target inside the tunnel to %s, but the modifier sees URL.Host=%q (client then got status %d)", it.idx, ph.Authority, ob.URLHost, cr.Status)
 					}
@@ -1427,7 +1503,7 @@ func judge(o *Outcome, st *judgeStats) []V {
 						clear++
 					}
 				}
-				judgedHost := !(it.form == "nohost" && !(tlsIn && h.Listener != "transparent")) // no fallback authority is stated there
+				judgedHost := !(it.form == "nohost" && !(tlsIn && h.hasConnect())) // no fallback authority is stated there
 				switch {
 				case tlsIn && clear > 0:
 					addV(E, "forwarded_upstream_in_cleartext", at, "request %d (%s) decrypted from the TLS tunnel reached the origin over a cleartext connection (dials: %v)", it.idx, it.form, o.Dials)
@@ -1533,7 +1609,7 @@ func sniName(sc Script, ph Phase) string {
 
 // Signatures: <entry>[:attr=values...]:<symptom>; an attribute is mentioned only if the symptom does NOT occur for
 // all values that attribute takes among the enumerated requests of that entry.
-var attrOrder = []string{"listener", "port", "auth", "sni", "tls", "early", "peer", "cls", "form", "pos", "via"}
+var attrOrder = []string{"listener", "port", "auth", "sni", "tls", "early", "outer", "peer", "cls", "form", "pos", "via"}
 
 func computeDomains(hs []History) map[string]map[string]map[string]bool {
 	dom := map[string]map[string]map[string]bool{}
@@ -1652,6 +1728,16 @@ func evaluate(o *Outcome) *Result {
 type line struct {
 	Start  *int    `json:"start,omitempty"`
 	Result *Result `json:"result,omitempty"`
+	Capped bool    `json:"capped,omitempty"` // the worker stopped because the time cap was reached
+}
+
+// timeCap is the internal wall-clock cap of a run (not an oracle): workers stop starting histories after it and
+// the run is reported as incomplete.
+func timeCap(tier string) time.Duration {
+	if tier == "thorough" {
+		return 9 * time.Minute
+	}
+	return 45 * time.Second
 }
 
 func mine(k, shard, n, seed int) bool { return (k+seed)%n == shard }
@@ -1682,9 +1768,17 @@ func workerMain(hs []History, shard, n int) {
 		only, _ = strconv.Atoi(v)
 	}
 	kept := map[string]int{}
+	stopAt := time.Unix(0, 0)
+	if v, err := strconv.ParseInt(os.Getenv("VERIF_C05_STOP_AT"), 10, 64); err == nil {
+		stopAt = time.Unix(v, 0)
+	}
 	for k := range hs {
 		if only >= 0 && k != only {
 			continue
+		}
+		if only < 0 && stopAt.Unix() > 0 && time.Now().After(stopAt) {
+			put(line{Capped: true})
+			break
 		}
 		if only < 0 && (k < from || !mine(k, shard, n, lib.Seed())) {
 			continue
@@ -1721,7 +1815,7 @@ func workerMain(hs []History, shard, n int) {
 	os.Exit(0)
 }
 
-func readShard(path string) (outs map[int]*Result, started []int) {
+func readShard(path string) (outs map[int]*Result, started []int, capped bool) {
 	outs = map[int]*Result{}
 	f, err := os.Open(path)
 	if err != nil {
@@ -1734,6 +1828,9 @@ func readShard(path string) (outs map[int]*Result, started []int) {
 		var l line
 		if json.Unmarshal(sc.Bytes(), &l) != nil {
 			continue
+		}
+		if l.Capped {
+			capped = true
 		}
 		if l.Start != nil {
 			started = append(started, *l.Start)
@@ -1780,7 +1877,7 @@ func runIsolated(h History, file string) *Result {
 	cmd := exec.Command(os.Args[0], os.Args[1:]...)
 	cmd.Env = append(os.Environ(), "VERIF_SHARD=0/1", "VERIF_SHARD_OUT="+file, "GOMAXPROCS=2", "VERIF_C05_ONLY="+strconv.Itoa(h.ID))
 	b, err := cmd.CombinedOutput()
-	got, _ := readShard(file)
+	got, _, _ := readShard(file)
 	if r, ok := got[h.ID]; ok && err == nil {
 		return r
 	}
@@ -1818,6 +1915,8 @@ func main() {
 		"a second CONNECT inside a plaintext tunnel opens a new tunnel on the same connection and session; requests after it are judged against the second tunnel (its authority, its content)",
 		"'same segment' = one Write call on a loopback TCP connection",
 		"hang deadlines (12 s per I/O, 60 s per history) are liveness guards only",
+		"nested space: only TLS inside the tunnel is enumerated (whether plaintext inside a CONNECT that itself arrived over TLS is an 'insecure session' is not decided by the statement); the CONNECT request itself, read from the outer TLS connection, is only judged for session sharing",
+		"the internal time cap (45 s quick / 9 min thorough) only stops the enumeration early (reported as incomplete)",
 		"hijack at the CONNECT request itself (before any decryption exists) belongs to C02 and is not enumerated",
 	}
 
@@ -1833,6 +1932,8 @@ func main() {
 		os.Exit(2)
 	}
 	os.Setenv("VERIF_C05_CA", dir)
+	stopAt := time.Now().Add(timeCap(tier))
+	os.Setenv("VERIF_C05_STOP_AT", strconv.FormatInt(stopAt.Unix(), 10))
 	files, errs, outs := lib.RunShards(nshards, dir)
 
 	// Collect. A worker that died is resumed after the history it died in; because a panicking proxy goroutine
@@ -1840,7 +1941,7 @@ func main() {
 	// before may be the real culprit: both are re-run alone in a fresh process, and that run is authoritative.
 	results := map[int]*Result{}
 	var rmu sync.Mutex
-	var engineErr string
+	var engineErr, incomplete string
 	var wg sync.WaitGroup
 	for s := 0; s < nshards; s++ {
 		wg.Add(1)
@@ -1849,7 +1950,7 @@ func main() {
 			werr, wout := errs[s], outs[s]
 			isolated := map[int]bool{}
 			for resumes := 0; ; resumes++ {
-				got, started := readShard(files[s])
+				got, started, capped := readShard(files[s])
 				missing, prev := -1, -1
 				rmu.Lock()
 				for id, o := range got {
@@ -1868,6 +1969,12 @@ func main() {
 				}
 				rmu.Unlock()
 				if missing < 0 {
+					return
+				}
+				if capped || time.Now().After(stopAt) {
+					rmu.Lock()
+					incomplete = fmt.Sprintf("time cap of %v reached before all histories were run", timeCap(tier))
+					rmu.Unlock()
 					return
 				}
 				wasStarted := false
@@ -1904,6 +2011,12 @@ func main() {
 				if resumes >= 2 {
 					// Third death in this shard: stop bulk runs, every remaining history gets its own process.
 					for k := missing + 1; k < len(hs); k++ {
+						if time.Now().After(stopAt) {
+							rmu.Lock()
+							incomplete = fmt.Sprintf("time cap of %v reached before all histories were run", timeCap(tier))
+							rmu.Unlock()
+							return
+						}
 						if mine(k, s, nshards, lib.Seed()) {
 							r := runIsolated(hs[k], filepath.Join(dir, fmt.Sprintf("only-%d.json", k)))
 							rmu.Lock()
@@ -1922,6 +2035,7 @@ func main() {
 		fmt.Fprintln(os.Stderr, "C05:", engineErr)
 		os.Exit(2)
 	}
+	rep.Incomplete = incomplete
 
 	// Aggregate.
 	var all []vref
@@ -1987,12 +2101,12 @@ func main() {
 	rep.Coverage["histories_hung"] = hung
 	rep.Coverage["histories_crashed_worker"] = crashed
 	rep.Coverage["worker_processes"] = nshards
-	rep.Coverage["rule"] = "every history of the spaces core (listener x tunnel content x authority port x form sequences of length 1..N x hijack position/handle), and in the thorough tier config (core with N<=2 x authority spelling x SNI x client TLS profile x early data), pair (two interleaved tunnels on two connections) and reconnect (plaintext tunnel then a second CONNECT on the same connection) is run once through the real proxy; states = distinct per-request modifier views (entry, space, listener, scenario attributes, scheme, secure, TLS state and version, host, response seen); transitions = modifier invocations; non-trivial = anything TestIntegrationMITM/TransparentMITM do not do: >=2 requests on the decrypted connection, a non-origin-form target, a hijack, or any non-default configuration/topology"
+	rep.Coverage["rule"] = "every history of the spaces core (listener x tunnel content x authority port x form sequences of length 1..N x hijack position/handle), and nested (CONNECT over an outer TLS connection to the proxy itself, then a MITM'd inner handshake), and in the thorough tier config (core with N<=2 x authority spelling x SNI x client TLS profile x early data), pair (two interleaved tunnels on two connections) and reconnect (plaintext tunnel then a second CONNECT on the same connection) is run once through the real proxy; states = distinct per-request modifier views (entry, space, listener, scenario attributes, scheme, secure, TLS state and version, host, response seen); transitions = modifier invocations; non-trivial = anything TestIntegrationMITM/TransparentMITM do not do: >=2 requests on the decrypted connection, a non-origin-form target, a hijack, or any non-default configuration/topology"
 	rep.Coverage["exhaustive"] = rep.Incomplete == "" && executed == len(hs)
 	if tier == "thorough" {
-		rep.Coverage["bounds"] = "core: N<=4 requests, 3 listeners, 2 tunnel contents (transparent: TLS only), ports {443,8443}, 4 target forms per request, 5 hijack variants at the last request (= every index 1..4); config: N<=2 x 6 authority spellings x 2 SNI x 4 TLS profiles x 2 early-data modes (minus combinations that are core or impossible); pair: 2 connections x N<=2 each, all content combinations; reconnect: 1..2 plaintext requests then second CONNECT with TLS/plaintext and 1..2 requests"
+		rep.Coverage["bounds"] = "core: N<=4 requests, 3 listeners, 2 tunnel contents (transparent: TLS only), ports {443,8443}, 4 target forms per request, 5 hijack variants at the last request (= every index 1..4); nested: 3 TLS listener layerings x outer profile {default, TLS1.2} x N<=3 x 5 hijack variants; config: N<=2 x 6 authority spellings x 2 SNI x 4 TLS profiles x 2 early-data modes (minus combinations that are core or impossible); pair: 2 connections x N<=2 each, all content combinations; reconnect: 1..2 plaintext requests then second CONNECT with TLS/plaintext and 1..2 requests"
 	} else {
-		rep.Coverage["bounds"] = "core only: N<=2 requests, 3 listeners, 2 tunnel contents (transparent: TLS only), ports {443,8443}, 4 target forms per request, 5 hijack variants at the last request"
+		rep.Coverage["bounds"] = "core: N<=2 requests, 3 listeners, 2 tunnel contents (transparent: TLS only), ports {443,8443}, 4 target forms per request, 5 hijack variants at the last request; nested: 3 TLS listener layerings x outer profile {default, TLS1.2} x N<=2 x 5 hijack variants"
 	}
 	rep.Finish()
 }
